@@ -1128,7 +1128,22 @@ pub fn c11(rec: &mut Rec, rng: &mut Rng, thorough: bool) {
         d.stop_on_parse_error = true;
         let cuts = gen::cuts_r(rng, &a);
         let mut errored = false;
-        'a: for ch in gen::split_at_cuts(&a, &cuts) {
+        // every fifth history: the limit is reconfigured while the (to be rejected) input is arriving — afterwards the
+        // connection must behave like a new one configured with the limit NOW in force
+        let relimit: Option<(usize, usize)> = if rng.chance(1, 5) {
+            let chunks_n = cuts.len() + 1;
+            Some((rng.below(chunks_n), *rng.pick(&[3usize, 40, 700, 51200, 60000])))
+        } else {
+            None
+        };
+        let old_limit = limit;
+        'a: for (ci, ch) in gen::split_at_cuts(&a, &cuts).into_iter().enumerate() {
+            if let Some((at, nl)) = relimit {
+                if at == ci {
+                    d.set_limit(rec, nl);
+                    rec.count("A:limit-changed-inside-rejected-input");
+                }
+            }
             // descriptors may arrive with the rejected input: they must not survive the error either
             let nf = if rng.chance(1, 4) { rng.range(1, 3) } else { 0 };
             for r in d.recv(rec, &ch, nf) {
@@ -1161,12 +1176,21 @@ pub fn c11(rec: &mut Rec, rng: &mut Rng, thorough: bool) {
         }
         let (more, _) = pipeline(rng, 2, false);
         b.extend_from_slice(&more);
+        if relimit.is_some() && d.limit != old_limit {
+            // a request whose declared length lies between the old and the new limit
+            let (lo, hi) = (old_limit.min(d.limit), old_limit.max(d.limit));
+            let n = (lo + 1 + rng.below((hi - lo).min(50))).min(hi);
+            b.extend_from_slice(format!("PUT /between HTTP/1.1\r\nContent-Length: {}\r\n\r\n", n).as_bytes());
+            if n <= d.limit {
+                b.extend_from_slice(&gen::body_bytes(rng, n.min(3000)));
+            }
+        }
         let cuts = gen::cuts_r(rng, &b);
         let chunks = gen::split_at_cuts(&b, &cuts);
         let before = d.delivered.len();
         let t1 = transcript(&mut d, rec, &chunks);
         let delivered_after: Vec<String> = d.delivered[before..].iter().map(|x| x.text_nofiles.clone()).collect();
-        let mut fresh = ConnDriver::new(rec, limit);
+        let mut fresh = ConnDriver::new(rec, d.limit);
         let t2 = transcript(&mut fresh, rec, &chunks);
         if t1 != t2 {
             let mut l = d.log.clone();
